@@ -1298,7 +1298,11 @@ func TestCheck(t *testing.T) {
 	r.Set("list_domains", map[string]any{"entries": listEntries, "sequences": "every sequence of 1..2 entries (quick: and of 3 over two sub-alphabets of 6; thorough: every sequence of 3) as deny list and as allow list, dns_rebind_protection off and on",
 		"cross": "allow x deny over every sequence of 1..2 entries of the cross alphabet", "cross_alphabet_quick": listCross, "cross_alphabet_thorough": listCrossThorough,
 		"forms": []string{"one directive per entry", "one multi-value directive", "{$VAR:default} placeholders"}, "hand_lists_for_forms": listHand})
+	r.Set("answer_domains", map[string]any{"address_pool": answerPool, "sequence_lengths": fmt.Sprintf("1..%d", answerMaxLen(r.Thorough())), "answers": answerCount[answerMaxLen(r.Thorough())],
+		"policies": len(apols), "allow": []string{"none", ansNet6, ansNet4, "10.0.0.0/8", ansHost + " *." + ansHost}, "deny": []string{"none", ansNet6, ansNet4, "fc00::/7", "10.0.0.0/8"}, "dns_rebind_protection": "on, off"})
 	r.Set("rule_parts", map[string]string{
+		"A": "resolver answer sets: every sequence of 1..4 (thorough 1..5) addresses over the pool of answer_domains (public IPv6 x2, public IPv4 in 4-byte and IPv4-mapped form, unique-local and link-local IPv6, private IPv4 in both forms) as the answer for the delivery host, dns_rebind_protection on/off x allow x deny over IPv6/IPv4 networks and a host rule, as direct delivery and as redirect target; judged by the reference on the answer as given",
+		"S": "schedules: 2 (thorough also 3) overlapping Deliver calls on one HTTPDeliverer for every multiset of deliveries over the URL alphabet of concurrent_deliveries (same host other scheme/port/path/spelling, sub-domain, same address, name with a private address, unresolvable name, IP literals, redirect chains into related URLs) under each of its policies, every interleaving of the deliverer's lock/atomic/sync.Map operations and of the harness points inside the DNS lookup and inside RoundTrip: nothing sent to a URL the reference forbids, every delivery ends exactly as it ends alone on a fresh deliverer, every delivery finishes; side condition: free-running -race pass of the same thread bodies",
 		"L": "rule lists: every list policy of list_domains compiled from Hookaidofile text; every host derived from every entry (apex, sub-domain, two-level sub-domain, suffix without dot boundary, prefix trap, parent, upper-case/trailing-dot spellings; first/last/below/above/base address of every network as literal, IPv4-mapped literal and as resolver answer alone and mixed) as direct delivery and as redirect target; judged by the reference on the entries as written",
 		"D": "dispatcher chains: policy x retry.max x first URL x chains of 0..2 redirects over the URL alphabet x earlier failed attempts 0..retry.max x redirect statuses through the real PushDispatcher + HTTPDeliverer + http.Client in a synctest bubble: no request to a forbidden URL; denied first URL or hop => dead policy_denied by that very attempt; plainly allowed chain => acked"})
 	r.Set("rule", "complete product scheme x host x (resolver answer, names only) x userinfo x port x https_only x redirects x dns_rebind_protection x allow x deny through "+
@@ -1314,6 +1318,7 @@ func TestCheck(t *testing.T) {
 	r.Assume("error kind for a denied redirect hop is not asserted (the statement only requires that the hop is not contacted); URLs the Go URL parser refuses or that carry no authority are only required to send nothing and fail")
 	r.Assume("part L: a compile step may drop an entry that is truly redundant (the number of compiled rules is not compared for multi-entry lists); only the behaviour towards the derived hosts is judged")
 	r.Assume("part D: that an attempt answered 503 / failed in the transport is retried while attempt <= retry.max is C06's statement and a precondition here (cases where it does not hold are counted in disp_cases_unjudged and make the run non-exhaustive); retry.max 0 and a first URL with a non-http scheme cannot be written in a Hookaidofile, for them the compiled route is adjusted by hand (the policy always comes from the compiler); what becomes of an unfollowed 3xx answer (redirects off) is not judged; the resolver answer of a name does not change between the attempts of one message (C06 part e2 varies it)")
+	r.Assume("part S: scheduling points are the lock, atomic and sync.Map operations of package dispatcher plus one harness point inside every resolver lookup and one inside every RoundTrip; code between two points runs without interruption, which is sound provided it is data-race free (side condition: the -race pass of race_test.go); sharing through channels is executed but is not a point of its own; the resolver answer of a name is fixed; the reference behaviour of a delivery is the same build's behaviour for that delivery alone on a fresh deliverer (judged against the independent reference by the other parts); the PushDispatcher's own worker pool is not part of the exploration (two Deliver calls stand for two workers)")
 	r.Assume("the RoundTripper is the observation point: a request is 'sent' when http.Client hands it to the transport; the host contacted is req.URL.Host")
 	r.Finish()
 }
